@@ -392,4 +392,69 @@ def pairwiseDistinguishable : List Candidate → Bool
   | [] => true
   | c :: r => distinguishableFrom c r && pairwiseDistinguishable r
 
+/-! ## function-typed parameters called with lambda / function literals and constants
+
+Candidates `f([lead,] fn func(int×k) results)` (results: none / int / (int, error)), optionally
+generic `f[T any](ar []T, fn func(T) T)` (a Go function of the package).  What cl decides before
+trying a candidate (`checkLambdaFuncType`, `compileCallArgs`): a lambda fits a func type with the
+same number of parameters; an *expression* lambda also needs the same number of results; a
+*block* lambda is committed to the first candidate of matching argument count and arity (its
+results and the other arguments' types are not examined first), so for block lambdas only those
+two numbers distinguish candidates. -/
+
+inductive Lead where
+  | none | int | str | sliceInt | sliceStr     -- parameter kinds / typed variable arguments
+  | constInt | constStr                         -- untyped constant arguments
+  | genSlice                                    -- parameter `[]T` of a generic candidate
+  deriving Repr, DecidableEq
+
+inductive LamArg where
+  | expr (k r : Nat)      -- (a, …) => e1, …, er
+  | block (k : Nat)       -- (a, …) => { … }
+  | lit (k r : Nat)       -- func(a int, …) results { … }
+  deriving Repr, DecidableEq
+
+structure LCand where
+  id : Nat
+  lead : Lead
+  k : Nat
+  r : Nat
+  generic : Bool
+  deriving Repr, DecidableEq
+
+structure LCall where
+  lead : Lead
+  arg : LamArg
+  deriving Repr, DecidableEq
+
+def leadAccepts (param arg : Lead) : Bool :=
+  match param, arg with
+  | .none, .none => true
+  | .int, .int | .int, .constInt => true
+  | .str, .str | .str, .constStr => true
+  | .sliceInt, .sliceInt => true
+  | .genSlice, .sliceInt | .genSlice, .sliceStr => true
+  | _, _ => false
+
+def lamAccepts (c : LCand) (call : LCall) : Bool :=
+  match call.arg with
+  | .expr k r => k == c.k && r == c.r
+  | .block k => k == c.k
+  | .lit k r => k == c.k && r == c.r && !(c.generic && call.lead == .sliceStr)
+
+/-- A block lambda is compiled against the first candidate with the same number of arguments and
+the same lambda arity, before the other arguments are type-checked (so the leading argument's type
+does not help to distinguish candidates there). -/
+def lcandAccepts (c : LCand) (call : LCall) : Bool :=
+  match call.arg with
+  | .block k => ((c.lead == .none) == (call.lead == .none)) && k == c.k
+  | _ => leadAccepts c.lead call.lead && lamAccepts c call
+
+/-- first listed candidate that accepts -/
+def ldispatch (cs : List LCand) (call : LCall) : Option LCand :=
+  cs.find? fun c => lcandAccepts c call
+
+def lacceptors (cs : List LCand) (call : LCall) : Nat :=
+  (cs.filter fun c => lcandAccepts c call).length
+
 end GopModel.Overload
